@@ -20,12 +20,14 @@ def run(ctx):
         return None
 
     # (ii) type-mismatched delegating metadata under every decoration of the signature map
-    T = M.envelope(M.md("root", 3, {"root": M.delegation((0,), 1), "key_mgr": M.delegation((1,), 1), "pkg_mgr": M.delegation((1,), 1)}), (0,))
+    T = M.envelope(M.md("root", 3, {"root": M.delegation((0,), 1), "key_mgr": M.delegation((1,), 1), "pkg_mgr": M.delegation((1,), 1),
+                                    "зеркало": M.delegation((0, 1), 1), "clés": M.delegation((0, 1), 1), "key_mgr\u2024json": M.delegation((0, 1), 1)}), (0,))
     decorations = [{}, {"junk": 5}, {"junk": None}, {"\ud800": {"x": 1}}, {PUBHEX[2]: "notadict"}, {PUBHEX[2]: {"signature": "zz"}},
                    {"é" * 64: {"signature": "0" * 128}}, {PUBHEX[2].upper(): {"signature": "0" * 128}}, {"a": [], "b": {}, "c": 1.5},
                    {PUBHEX[3]: {"signature": "0" * 128, "other_headers": ""}}, {PUBHEX[3]: {"signature": "0" * 127}}]
     cases = []
-    for declared, asrole in (("root", "key_mgr"), ("key_mgr", "root"), ("root", "pkg_mgr"), ("key_mgr", "pkg_mgr"), ("key_mgr", "Key_mgr")):
+    for declared, asrole in (("root", "key_mgr"), ("key_mgr", "root"), ("root", "pkg_mgr"), ("key_mgr", "pkg_mgr"), ("key_mgr", "Key_mgr"),
+                             ("key_mgr", "зеркало"), ("root", "clés"), ("key_mgr", "key_mgr\u2024json")):
         for ver in (1, 4):
           dl0 = {"root": M.delegation((1,), 1)} if declared == "root" else {}
           # the plain document, then unusual spellings the documented schema still admits
